@@ -6,18 +6,21 @@ import random
 
 ID = "C06"
 LEVEL = "exploration"
-TECHNIQUE = "runtime monitoring on a virtual-time simulated network: interleaved scripted Block1/Block2 request sequences (in order, restart, repeat, skip, last-first, wrong sizes, beyond range, SZX changes, idle gaps around the state lifetime) from 1-3 raw endpoints; oracle = sequential reference model per (endpoint, method, cache-key) stepped over the request history, compared with the handler log and the wire; TimeoutDict lifetime invariant checked at a hook"
-LEVEL_TEXT = "Each generated history is stepped through a reference model of assemblies and renderings; every response (code, echoed Block1, Block2 option, payload slice) and every handler invocation (body bytes) must agree, accepting a set of outcomes only where the statement leaves a choice."
-LEVEL_NOTE = "Trusted: the reference model in checks/c06.py, simnet, refcodec. Inside the (T, 2T) expiry band either outcome is accepted and the model resynchronises from the observed answer. A mis-sized block 0 and NUM>0 on a rendering that fitted one block accept {4.00, 4.08} / {2.31, 4.00} as noted in DESIGN.md."
+TECHNIQUE = "runtime monitoring on a virtual-time simulated network: interleaved scripted Block1/Block2 request sequences (in order, restart, repeat, skip, last-first, wrong sizes, beyond range, SZX changes, idle gaps around the state lifetime, further blocks after / during the handling of a completed upload, two or three overlapping block-0 requests for one key whose renderings take different times) from 1-3 raw endpoints against a resource whose handler takes 0 / 33 / 66 ms per invocation; oracle = reference model per (endpoint, method, cache-key) stepped over the request history in arrival order, compared with the handler log (request as seen on entry and again after the handler's await) and the wire; TimeoutDict lifetime invariant checked at a hook"
+LEVEL_TEXT = "Each generated history is stepped through a reference model of assemblies and renderings; every response (code, echoed Block1, Block2 option, payload slice) and every handler invocation (body bytes, on entry and after its await) must agree, accepting a set of outcomes only where the statement leaves a choice. An assembly ends with its final block (a further block finds no transfer: 4.08); later blocks are slices of the rendering made for the block-0 request that arrived last, whichever rendering finished last."
+LEVEL_NOTE = "Trusted: the reference model in checks/c06.py, simnet, refcodec. Inside the (T, 2T) expiry band either outcome is accepted and the model resynchronises from the observed answer. A mis-sized block 0 and NUM>0 on a rendering that fitted one block accept {4.00, 4.08} / {2.31, 4.00} as noted in DESIGN.md. Requests overlap a running handler only in two shapes (continuations of the upload whose handler is running; block-0 requests of one key 10 ms apart, later blocks only when all handlers have returned); a later block that arrives while the latest block-0 request is still being rendered may be answered 4.08 or with the right slice. Handler invocations are attributed to the request being delivered in the virtual instant they begin."
 RULE = (
-    "one case = one history of 2-4 interleaved flows; flow = (endpoint, method, query, body length, SZX, upload script, download script, idle gaps). "
-    "Non-trivial = at least one multi-block transfer with a deviation (restart/repeat/skip/size error/expiry/beyond range) or two interleaved flows; distinct = distinct tuples of flow scripts and size classes"
+    "one case = one history of 1-4 interleaved flows; flow = (endpoint, method, query, body length, SZX, upload script, download script, idle gaps, handler durations, overlap group). "
+    "Non-trivial = at least one multi-block transfer with a deviation (restart/repeat/skip/size error/expiry/beyond range/block after completion/overlapping block-0 requests) or two interleaved flows; distinct = distinct tuples of flow scripts, size classes and handler durations"
 )
-ASSUMPTIONS = ["handlers are instantaneous, so requests are processed one at a time in arrival order", "MAX_TRANSMIT_WAIT of the default TransportTuning is the state lifetime (read at run time)"]
-REQUIRED_MONITORS = {"response_matches_model": 2000, "handler_body": 300, "continue_echo": 500, "incomplete_408": 100, "block2_slice": 300, "expiry": 40, "timeoutdict_tick": 20}
+ASSUMPTIONS = ["handlers return at once or after 33 / 66 ms (below EMPTY_ACK_DELAY: every response is piggy-backed); requests are 10 ms apart, so a request arrives while a handler is at work only where the generator places it", "MAX_TRANSMIT_WAIT of the default TransportTuning is the state lifetime (read at run time)"]
+_REQ = {"response_matches_model": 2000, "handler_body": 300, "continue_echo": 500, "incomplete_408": 100, "block2_slice": 300, "expiry": 40, "timeoutdict_tick": 20, "continuation_after_completion": 120, "continuation_during_handler": 40, "slow_handler_body": 300, "overlapping_block0": 150, "later_block_after_overlap": 400, "later_block_older_finished_later": 200}
+REQUIRED_MONITORS = {"quick": _REQ, "thorough": {k: v * 20 for k, v in _REQ.items()}}
 
-UP = ["inorder", "inorder", "restart", "restart-single", "repeat", "skip", "lastfirst", "wrongsize", "oversize-final", "unknown", "szx-change"]
-DOWN = ["none", "inorder", "inorder", "beyond", "szx-change", "repeat", "skip"]
+UP = ["inorder", "inorder", "restart", "restart-single", "repeat", "skip", "lastfirst", "wrongsize", "oversize-final", "unknown", "szx-change", "after-final", "during-handler", "during-handler"]
+DOWN = ["none", "inorder", "inorder", "beyond", "szx-change", "repeat", "skip", "overlap", "overlap"]
+DELAYS = [0.033, 0.066]  # how long a slow handler awaits: below EMPTY_ACK_DELAY, never a multiple of the 10 ms request spacing
+SETTLE = 0.1  # pause after an overlap episode: every handler has returned before the next request is sent
 GAPS = [0.0, 0.0, 0.0, 0.0, 10.0, 92.0, 94.0, 140.0, 185.0, 187.5, 400.0]
 
 
@@ -36,18 +39,58 @@ def pattern(tag, n):
     return bytes(out[:n])
 
 
+def cont_steps(r, fid, last, szx, n):
+    """n requests that claim to continue an upload whose final block was number `last`: the next block number (in the
+    same or in the half block size: the same byte offset), one further on, or the final block's own number again"""
+    kind = r.choice(["next", "next", "next", "half", "gap", "final-again"])
+    num, sz = last + 1, szx
+    if kind == "half" and szx >= 1:
+        num, sz = 2 * (last + 1), szx - 1
+    elif kind == "gap":
+        num = last + 2
+    elif kind == "final-again":
+        num = last
+    csize = 1 << (sz + 4)
+    out = []
+    for j in range(n):
+        more = r.random() < 0.5
+        plen = csize if more else r.choice([0, 0, 1, csize - 1, csize, csize])
+        out.append({"b1": (num + j, more, sz), "payload": pattern(b"C%d-" % fid, plen)})
+    return out
+
+
+def later_blocks(down, nb, eff_szx):
+    dl = []
+    order = list(range(1, nb))
+    if down == "beyond":
+        order = order[:1] + [nb, nb + 3]
+    elif down == "repeat" and order:
+        order = order + order[-1:]
+    elif down == "skip" and len(order) > 1:
+        order = order[1:]
+    for i in order:
+        dl.append({"b1": None, "payload": b"", "b2": (i, False, eff_szx)})
+    if down == "szx-change" and eff_szx >= 1 and nb >= 2:
+        dl = [{"b1": None, "payload": b"", "b2": (2, False, eff_szx - 1)}, {"b1": None, "payload": b"", "b2": (3, False, eff_szx - 1)}, {"b1": None, "payload": b"", "b2": (1, False, eff_szx)}]
+    return dl
+
+
 def gen_flow(r, fid):
     method = r.choice([3, 2, 5, 1])
     szx = r.randrange(0, 7)
     size = 1 << (szx + 4)
     nblocks = r.choice([1, 2, 3, 4, 6])
+    up = r.choice(UP) if method != 1 else "none"
     blen = 0 if method == 1 else r.choice([size * nblocks, size * nblocks - 1, size * (nblocks - 1) + 1, size * nblocks - size // 2])
+    if up in ("after-final", "during-handler") and r.random() < 0.7:
+        # the final block is a full one: the next block number continues exactly where the delivered body ends
+        blen = size * nblocks
     rlen = r.choice([0, 1, size - 1, size, size + 1, 3 * size, 3 * size + 5, 1124, 1125, 2500])
     ep = r.randrange(3)
     q = "n=%d&k=%d" % (rlen, r.randrange(2))
     steps = []
     body = pattern(b"B%d-" % fid, blen)
-    up = r.choice(UP) if method != 1 else "none"
+    main = 0  # the step that carries the flow's Block2 option: the one meant to complete the request
     if method != 1:
         blocks = [(i, body[i * size : (i + 1) * size]) for i in range(max(1, -(-blen // size)))]
         last = len(blocks) - 1
@@ -56,6 +99,7 @@ def gen_flow(r, fid):
             return {"b1": (i if num is None else num, (i < last) if more is None else more, szx_), "payload": blocks[i][1] if payload is None else payload}
 
         seq = [blk(i) for i in range(len(blocks))]
+        tail = []
         if up == "restart" and last >= 1:
             k = r.randrange(1, last + 1)
             seq = [blk(i) for i in range(k)] + seq
@@ -90,38 +134,82 @@ def gen_flow(r, fid):
             rest = body[size:]
             sub = [rest[i : i + half] for i in range(0, len(rest), half)]
             seq = [blk(0)] + [{"b1": (2 + i, i < len(sub) - 1, szx - 1), "payload": p} for i, p in enumerate(sub)]
-        steps += seq
+        elif up == "after-final":
+            # the upload is complete and its body delivered (the handler has returned: at once, or after a while);
+            # then one or two more blocks arrive that claim to continue it
+            if r.random() < 0.3:
+                seq[last]["delay"] = r.choice(DELAYS)
+                seq[last]["settle"] = True
+            tail = cont_steps(r, fid, last, szx, r.choice([1, 1, 2]))
+        elif up == "during-handler":
+            # the same while the handler of the completed upload is still at work (it awaits for 33 / 66 ms; blocks
+            # arrive every 10 ms), optionally another one after it has returned
+            seq[last]["delay"] = r.choice(DELAYS)
+            seq[last]["hold"] = True
+            nd = r.choice([1, 1, 2])
+            tail = cont_steps(r, fid, last, szx, nd + (r.random() < 0.4))
+            for t in tail[: nd - 1]:
+                t["hold"] = True
+            tail[nd - 1]["settle"] = True
+        main = len(seq) - 1
+        for t in tail:
+            if r.random() < 0.2:
+                t["b2"] = (r.choice([0, 1]), False, r.randrange(0, 7))
+        steps += seq + tail
     else:
         steps.append({"b1": None, "payload": b""})
     # download
     down = r.choice(DOWN)
     dsz = r.randrange(0, 7)
-    dsize = 1 << (dsz + 4)
-    nb = max(1, -(-rlen // dsize))
     first_b2 = r.choice([None, (0, False, dsz)])
     if first_b2 is not None:
-        steps[-1]["b2"] = first_b2
+        steps[main]["b2"] = first_b2
     eff_szx = dsz if first_b2 is not None else 6
+    eff_rlen = rlen
+    overlap = 0
+    if down == "overlap":
+        # two or three block-0 requests (plain requests, single-block Block1 requests, the final block of an upload)
+        # for this key from this endpoint, 10 ms apart, each rendering taking 0 / 33 / 66 ms, so that the renderings
+        # overlap and finish in any order (mostly: the earlier one later); later blocks are asked for when all are done
+        group = []
+        if main == len(steps) - 1 and up in ("none", "inorder"):
+            group.append(steps[main])
+        for j in range(r.choice([1, 1, 2]) + (not group)):
+            kind = r.choice(["plain", "single", "two"]) if method != 1 else "plain"
+            if kind == "plain":
+                new = [{"b1": None, "payload": pattern(b"P%d-" % fid, r.choice([0, 5, 100])) if method != 1 else b""}]
+            elif kind == "single":
+                new = [{"b1": (0, False, szx), "payload": pattern(b"S%d-" % fid, r.choice([1, size // 2, size]))}]
+            else:
+                new = [{"b1": (0, True, szx), "payload": pattern(b"T%d-" % fid, size)}, {"b1": (1, False, szx), "payload": pattern(b"U%d-" % fid, r.choice([1, size - 1, size]))}]
+            b2j = r.choice([first_b2, first_b2, None, (0, False, r.randrange(0, 7))])
+            new[-1]["b2"] = b2j
+            steps += new
+            group.append(new[-1])
+        for j, g in enumerate(group):
+            g["delay"] = r.choice([0.066, 0.066, 0.033, 0.0] if j == 0 else [0.0, 0.0, 0.033, 0.066])
+            s2 = 1 << ((g.get("b2") or (0, False, 6))[2] + 4)
+            g["rlen"] = r.choice([None, None, None, s2 + 1, 3 * s2, 3 * s2 + 5, 1, 1125, 2500])
+        i0 = [i for i, s in enumerate(steps) if s is group[0]][0]
+        for s in steps[i0:-1]:
+            s["hold"] = True
+        steps[-1]["settle"] = True
+        overlap = len(group)
+        eff_szx = (group[-1].get("b2") or (0, False, 6))[2]
+        eff_rlen = group[-1]["rlen"] if group[-1]["rlen"] is not None else rlen
+        down_later = r.choice(["inorder", "inorder", "inorder", "beyond", "repeat"])
+    else:
+        down_later = down
     esize = 1 << (eff_szx + 4)
-    nb = max(1, -(-rlen // esize))
-    dl = []
-    if down != "none":
-        order = list(range(1, nb))
-        if down == "beyond":
-            order = order[:1] + [nb, nb + 3]
-        elif down == "repeat" and order:
-            order = order + order[-1:]
-        elif down == "skip" and len(order) > 1:
-            order = order[1:]
-        for i in order:
-            dl.append({"b1": None, "payload": b"", "b2": (i, False, eff_szx)})
-        if down == "szx-change" and eff_szx >= 1 and nb >= 2:
-            dl = [{"b1": None, "payload": b"", "b2": (2, False, eff_szx - 1)}, {"b1": None, "payload": b"", "b2": (3, False, eff_szx - 1)}, {"b1": None, "payload": b"", "b2": (1, False, eff_szx)}]
-    steps += dl
+    nb = max(1, -(-eff_rlen // esize))
+    if down_later != "none":
+        steps += later_blocks(down_later, nb, eff_szx)
+    prev_hold = False
     for s in steps:
         s.setdefault("b2", None)
-        s["gap"] = r.choice(GAPS) if r.random() < 0.25 else 0.0
-    return {"fid": fid, "ep": ep, "method": method, "query": q, "szx": szx, "blen": blen, "rlen": rlen, "up": up, "down": down, "steps": steps}
+        s["gap"] = r.choice(GAPS) if r.random() < 0.25 and not prev_hold else 0.0
+        prev_hold = bool(s.get("hold"))
+    return {"fid": fid, "ep": ep, "method": method, "query": q, "szx": szx, "blen": blen, "rlen": rlen, "up": up, "down": down, "overlap": overlap, "steps": steps}
 
 
 def gen(r):
@@ -141,14 +229,19 @@ def gen(r):
                 f["method"] = twin["method"]
             elif which == "query" and f["method"] == twin["method"]:
                 f["ep"] = twin["ep"]
-    # interleave
+    # interleave; a step marked "hold" is followed by the next step of its own flow (the overlap episodes are not
+    # interrupted by other flows)
     order = []
     idx = [0] * nf
     while any(idx[i] < len(flows[i]["steps"]) for i in range(nf)):
         c = [i for i in range(nf) if idx[i] < len(flows[i]["steps"])]
         i = r.choice(c)
-        order.append((i, idx[i]))
-        idx[i] += 1
+        while True:
+            st = flows[i]["steps"][idx[i]]
+            order.append((i, idx[i]))
+            idx[i] += 1
+            if not st.get("hold") or idx[i] >= len(flows[i]["steps"]):
+                break
     return {"flows": flows, "order": order}
 
 
@@ -158,8 +251,10 @@ class Model:
         self.asm = {}  # K -> [bytearray, last_use]
         self.ren = {}  # K -> [bytes, last_use]
         self.asm_unknown = set()
-        self.asm_b2 = {}
+        self.asm_b2 = {}  # K -> Block2 option of block 0 of the transfer under way
         self.small = {}  # K -> time of the latest block-0 rendering that fitted one block
+        self.done = {}  # K -> (until when the handler of the completed upload runs): the latest transfer of K was completed
+        self.hist = {}  # K -> renderings made for K, by arrival of their request: dicts arrive, finish, bytes
 
     def presence(self, table, K, now):
         """-> 'yes' | 'no' | 'maybe'"""
@@ -187,16 +282,32 @@ def run_history(h, seed, rep, case, T):
         net = simnet.SimNet(loop)
         hlog = []
         serial = [0]
+        # what the runner is sending right now: the request that enters the handler next is this one (a request arrives
+        # 1 ms after it was sent and is dispatched in the same virtual instant; the next one is sent 10 ms later)
+        cur = {"step": None, "delay": 0.0, "rlen": None}
+
+        def seen(request):
+            b1 = request.opt.block1
+            return {"body": bytes(request.payload), "b1": None if b1 is None else (int(b1[0]), bool(b1[1]), int(b1[2])), "token": bytes(request.token or b"").hex()}
 
         class Big(R.Resource):
             async def _h(self, request):
                 serial[0] += 1
+                mine = serial[0]
                 n = 0
                 for q in request.opt.uri_query:
                     if q.startswith("n="):
                         n = int(q[2:])
-                hlog.append({"t": loop.time(), "remote": (request.remote.sockaddr[0], request.remote.sockaddr[1]), "code": int(request.code), "body": bytes(request.payload), "query": tuple(request.opt.uri_query), "serial": serial[0]})
-                return aiocoap.Message(payload=pattern(b"R%d-" % serial[0], n))
+                delay, rlen = cur["delay"], cur["rlen"]
+                ent = {"t": loop.time(), "step": cur["step"], "remote": (request.remote.sockaddr[0], request.remote.sockaddr[1]), "code": int(request.code), "query": tuple(request.opt.uri_query), "serial": mine, "delay": delay, "after": None, "t_done": None}
+                ent.update(seen(request))
+                hlog.append(ent)
+                if delay:
+                    await asyncio.sleep(delay)
+                    # the request as the handler finds it when it goes on working
+                ent["after"] = seen(request)
+                ent["t_done"] = loop.time()
+                return aiocoap.Message(payload=pattern(b"R%d-" % mine, n if rlen is None else rlen))
 
             render_get = render_put = render_post = render_fetch = _h
 
@@ -221,13 +332,19 @@ def run_history(h, seed, rep, case, T):
             if st["b2"] is not None:
                 opts.append((23, rc.block_bytes(*st["b2"])))
             peer = peers[fl["ep"]]
-            n_before = len(hlog)
             t_send = loop.time()
+            cur.update(step=len(trace), delay=st.get("delay") or 0.0, rlen=st.get("rlen"))
             peer.send(S, rc.Msg(rc.CON, fl["method"], peer.next_mid(), tok, tuple(sorted(opts, key=lambda o: o[0])), st["payload"]))
+            trace.append({"fi": fi, "si": si, "t": t_send + 0.001, "tok": tok})
             await asyncio.sleep(0.01)
-            resp = [m for (t, src, m, raw) in peer.inbox if m is not None and m.token == tok]
-            trace.append({"fi": fi, "si": si, "t": t_send + 0.001, "resp": resp, "handler": hlog[n_before:]})
+            if st.get("settle"):
+                await asyncio.sleep(SETTLE)
         await asyncio.sleep(1)
+        # responses by token, handler invocations by the request that was being delivered when they began
+        for i, tr in enumerate(trace):
+            peer = peers[h["flows"][tr["fi"]]["ep"]]
+            tr["resp"] = [m for (t, src, m, raw) in peer.inbox if m is not None and m.token == tr["tok"]]
+            tr["handler"] = [e for e in hlog if e["step"] == i]
         box.update(net=net, trace=trace, td=td)
         await srv.shutdown()
         return True
@@ -337,6 +454,7 @@ def judge(h, box, res, rep, case, T, EPS):
             P = st["payload"]
             if num == 0:
                 model.asm_unknown.discard(K)
+                model.done.pop(K, None)
                 model.asm[K] = [bytearray(P), now]
                 # the assembled request is built on the block-0 message: its Block2 option (if any) stays in force
                 # unless the final block brings its own
@@ -379,6 +497,14 @@ def judge(h, box, res, rep, case, T, EPS):
                 if pres == "no":
                     model.asm.pop(K, None)
                     rep.monitor("incomplete_408")
+                    if K in model.done:
+                        # the latest transfer of this key was completed and its body handed to the handler: nothing is
+                        # under way that this block could continue
+                        running = now < model.done[K] - 1e-9
+                        rep.monitor("continuation_during_handler" if running else "continuation_after_completion")
+                        if code != rc.c(4, 8):
+                            rep.violation("block1/continuation-after-completion-accepted" + ("/during-handler" if running else ""), "after blocks 0..n had been delivered and handed to the handler%s, a further block for the same endpoint / method / cache-key was answered %s instead of 4.08: no transfer is under way that it could extend" % (" (which was still at work)" if running else "", rc.code_str(code)), wit(i), case)
+                            return
                     if code != rc.c(4, 8):
                         rep.violation("block1/unknown-or-expired-not-408", "a continuation for an unknown or expired transfer was answered %s instead of 4.08" % rc.code_str(code), wit(i), case)
                         return
@@ -416,12 +542,9 @@ def judge(h, box, res, rep, case, T, EPS):
                     rep.violation("block1/intermediate-reached-handler", "an intermediate block reached the handler", wit(i), case)
                     return
                 continue
-            handler_body = bytes(model.asm[K][0])
-            model.asm[K][1] = now
-            if st["b2"] is not None:
-                # the assembly object outlives its completion (a later continuation at the right offset extends
-                # it): a Block2 option brought by this final block stays in force for such a later completion
-                model.asm_b2[K] = st["b2"]
+            # blocks 0..n are in: the body goes to the handler, the transfer is over and its assembly gone
+            handler_body = bytes(model.asm.pop(K)[0])
+            model.done[K] = now + (st.get("delay") or 0.0)
         else:
             handler_body = st["payload"]
         # ---------------- Block2 stage ----------------
@@ -437,11 +560,27 @@ def judge(h, box, res, rep, case, T, EPS):
             if hb["body"] != handler_body:
                 rep.violation("handler-body-differs", "the handler was invoked with a body that is not the in-order concatenation of the accepted blocks of this (endpoint, method, cache-key)", wit(i, got_len=len(hb["body"]), want_len=len(handler_body)), case)
                 return
-            R_ = pattern(b"R%d-" % hb["serial"], fl["rlen"])
+            if hb["after"] is None:
+                rep.inconc("a handler invocation had not returned when the history ended")
+                return
+            if hb["delay"]:
+                rep.monitor("slow_handler_body")
+            if hb["after"]["body"] != hb["body"]:
+                rep.violation("handler-body-changed-under-handler", "the body the handler was invoked with changed while the handler was at work: after its await it is no longer the concatenation of blocks 0..n it was given", wit(i, on_entry=(len(hb["body"]), hb["b1"], hb["token"]), after_await=(len(hb["after"]["body"]), hb["after"]["b1"], hb["after"]["token"])), case)
+                return
+            # where a response on the wire is wrong and the handler's own view of its request (Block1 option, token)
+            # changed during its await, the key says so
+            chg = any(hb["after"][k] != hb[k] for k in ("b1", "token"))
+            R_ = pattern(b"R%d-" % hb["serial"], fl["rlen"] if st.get("rlen") is None else st["rlen"])
+            hist = model.hist.setdefault(K, [])
+            if any(e["finish"] > now + 1e-9 for e in hist):
+                rep.monitor("overlapping_block0")
+            hist.append({"arrive": now, "finish": hb["t_done"], "bytes": R_})
+            del hist[:-4]
             szx2 = b2[2] if b2 is not None else 6
             size2 = 1 << (szx2 + 4)
             if len(R_) > 1124 or (b2 is not None and len(R_) > size2):
-                model.ren[K] = [R_, now]
+                model.ren[K] = [R_, hb["t_done"]]
                 model.small.pop(K, None)
                 exp_payload, exp_b2 = R_[:size2], (0, len(R_) > size2, szx2)
                 rep.monitor("block2_slice")
@@ -450,10 +589,15 @@ def judge(h, box, res, rep, case, T, EPS):
                 model.small[K] = now
                 # the previous rendering (if any) is no longer "the rendering of the latest block-0 request"
             exp_code = rc.c(2, 5) if fl["method"] in (1, 5) else rc.c(2, 4)
-            if code != exp_code or m.payload != exp_payload or (exp_b2 is not None and rb2 != exp_b2) or (exp_b2 is None and rb2 is not None and rb2 != (0, False, rb2[2])):
+            first_wrong = code != exp_code or m.payload != exp_payload or (exp_b2 is not None and rb2 != exp_b2) or (exp_b2 is None and rb2 is not None and rb2 != (0, False, rb2[2]))
+            ack_wrong = st["b1"] is not None and rb1 != (st["b1"][0], False, st["b1"][2])
+            if chg and (first_wrong or ack_wrong):
+                rep.violation("response-wrong/request-changed-under-handler", "the response to a complete request is wrong (%s), and the request the handler was given (Block1 option, token) changed while the handler was at work" % " and ".join(w for w, c in (("not the first slice of the rendering just made", first_wrong), ("does not echo the final block's Block1 option", ack_wrong)) if c), wit(i, got=(rc.code_str(code), rb1, rb2, len(m.payload)), want=(rc.code_str(exp_code), st["b1"] and (st["b1"][0], False, st["b1"][2]), exp_b2, len(exp_payload)), on_entry=(hb["b1"], hb["token"]), after_await=(hb["after"]["b1"], hb["after"]["token"])), case)
+                return
+            if first_wrong:
                 rep.violation("block2/first-block-wrong", "the response to a complete request is not (the first slice of) the rendering just made", wit(i, got=(rc.code_str(code), rb2, len(m.payload)), want=(rc.code_str(exp_code), exp_b2, len(exp_payload))), case)
                 return
-            if st["b1"] is not None and rb1 != (st["b1"][0], False, st["b1"][2]):  # noqa
+            if ack_wrong:
                 rep.violation("block1/final-ack-option-wrong", "the response to the final block does not echo its Block1 option", wit(i, got=rb1), case)
                 return
         else:
@@ -464,10 +608,36 @@ def judge(h, box, res, rep, case, T, EPS):
                 return
             deviation = deviation or fl["down"] not in ("inorder", "none")
             pres = model.presence(model.ren, K, now)
+            hist = model.hist.get(K, [])
+            if hist and hist[-1]["finish"] > now + 1e-9 and code == rc.c(4, 8):
+                # the handler is still at work on the latest block-0 request of this key: there is no rendering yet
+                # that a later block could be cut from (a server that waits and then serves the slice is judged below)
+                rep.count("later_block_while_rendering")
+                continue
+            if hist and any(e["finish"] > hist[-1]["arrive"] + 1e-9 for e in hist[:-1]):
+                # the latest block-0 request arrived while an earlier one of this key was still being rendered
+                rep.monitor("later_block_after_overlap")
+                if any(e["finish"] > hist[-1]["finish"] + 1e-9 for e in hist[:-1]):
+                    rep.monitor("later_block_older_finished_later")
+
+            def overlapped():
+                """the response is a slice of a rendering whose request was superseded while it was being rendered"""
+                for e in hist[:-1]:
+                    if e["finish"] > hist[-1]["arrive"] + 1e-9:
+                        if code in (rc.c(2, 5), rc.c(2, 4)) and num2 * size2 < len(e["bytes"]) and m.payload == e["bytes"][num2 * size2 : (num2 + 1) * size2]:
+                            return True
+                        if code == rc.c(4, 0) and num2 * size2 >= len(e["bytes"]):
+                            return True  # beyond the end of that one
+                return False
+
+            OVL = ("block2/served-from-superseded-rendering/overlapping", "a later block was answered (%s) from a rendering whose block-0 request had been superseded, while it was still being rendered, by a newer block-0 request of the same endpoint / method / cache-key, not from the rendering made for the latest block-0 request" % rc.code_str(code))
             if K in model.small:
                 # the rendering made for the latest block-0 request fitted one block (and was not kept): a later block
                 # is beyond its end (4.00) or finds no rendering (4.08); an older, superseded rendering that may still
                 # be around is not "the rendering made for the latest block-0 request"
+                if code not in (rc.c(4, 0), rc.c(4, 8)) and overlapped():
+                    rep.violation(OVL[0], OVL[1], wit(i), case)
+                    return
                 if code not in (rc.c(4, 0), rc.c(4, 8)) and pres != "no":
                     rep.violation("block2/served-from-superseded-rendering", "a later block was served (%s) from a rendering that a newer block-0 request of the same endpoint / method / cache-key had superseded" % rc.code_str(code), wit(i), case)
                     return
@@ -499,12 +669,18 @@ def judge(h, box, res, rep, case, T, EPS):
             start = num2 * size2
             rep.monitor("block2_slice")
             if start >= len(R_):
+                if code != rc.c(4, 0) and overlapped():
+                    rep.violation(OVL[0], OVL[1], wit(i), case)
+                    return
                 if code != rc.c(4, 0):
                     rep.violation("block2/beyond-end-not-400", "a block beyond the end of the rendering was answered %s instead of 4.00" % rc.code_str(code), wit(i), case)
                     return
                 continue
             exp_payload = R_[start : start + size2]
             exp_b2 = (num2, start + size2 < len(R_), szx2)
+            if (m.payload != exp_payload or code == rc.c(4, 0)) and overlapped():
+                rep.violation(OVL[0], OVL[1], wit(i, got=(rc.code_str(code), rb2, len(m.payload)), want=(exp_b2, len(exp_payload))), case)
+                return
             if code not in (rc.c(2, 5), rc.c(2, 4)) or m.payload != exp_payload or rb2 != exp_b2:
                 rep.violation("block2/slice-wrong", "a Block2 response is not exactly the slice [NUM x size, NUM x size + size) of the rendering of the latest block-0 request, or its more-flag / option is wrong", wit(i, got=(rc.code_str(code), rb2, len(m.payload)), want=(exp_b2, len(exp_payload))), case)
                 return
@@ -514,7 +690,7 @@ def judge(h, box, res, rep, case, T, EPS):
         rep.violation("timeoutdict/" + td["violations"][0][0], "the state container dropped an entry before its lifetime or kept one beyond twice its lifetime", {"violations": td["violations"][:5]}, case)
     if res.loop_exceptions:
         rep.violation("loop-exception/" + str(res.loop_exceptions[0].get("exc_type")), "an exception reached the event loop", {"loop": res.loop_exceptions[:2]}, case)
-    sig = tuple(sorted((f["method"], f["up"], f["down"], f["szx"], f["blen"] > 0, min(f["rlen"] // 1000, 2), any(s["gap"] > 50 for s in f["steps"])) for f in h["flows"]))
+    sig = tuple(sorted((f["method"], f["up"], f["down"], f["szx"], f["blen"] > 0, min(f["rlen"] // 1000, 2), any(s["gap"] > 50 for s in f["steps"]), tuple(round(s["delay"] * 1000) for s in f["steps"] if s.get("delay") is not None)) for f in h["flows"]))
     rep.case(sig, nontrivial=deviation or len(h["flows"]) > 1)
 
 
@@ -534,7 +710,7 @@ def describe(h, tr):
     fl = h["flows"][tr["fi"]]
     st = fl["steps"][tr["si"]]
     r = tr["resp"][0] if tr["resp"] else None
-    return {"flow": tr["fi"], "ep": fl["ep"], "method": fl["method"], "q": fl["query"], "t": round(tr["t"], 3), "b1": st["b1"], "b2": st["b2"], "plen": len(st["payload"]), "resp": None if r is None else (rc.code_str(r.code), [(n, v.hex()) for n, v in r.options], len(r.payload)), "handler": [(x["serial"], len(x["body"])) for x in tr["handler"]]}
+    return {"flow": tr["fi"], "ep": fl["ep"], "method": fl["method"], "q": fl["query"], "t": round(tr["t"], 3), "b1": st["b1"], "b2": st["b2"], "plen": len(st["payload"]), "handler_takes": st.get("delay") or 0.0, "renders": st.get("rlen"), "resp": None if r is None else (rc.code_str(r.code), [(n, v.hex()) for n, v in r.options], len(r.payload)), "handler": [{"rendering": x["serial"], "body_len": len(x["body"]), "block1": x["b1"], "until": x["t_done"], "after_await": None if x["after"] is None else (len(x["after"]["body"]), x["after"]["b1"])} for x in tr["handler"]]}
 
 
 def run_shard(shard, rep, only=None):
@@ -553,4 +729,4 @@ def run_shard(shard, rep, only=None):
             continue
         run_history(h, shard["seed"] * 65537 + k, rep, case, T)
         if k < 1 and shard["index"] == 0:
-            rep.sample({"class": "history", "flows": [{kk: (vv if kk != "steps" else [(s["b1"], s["b2"], len(s["payload"]), s["gap"]) for s in vv]) for kk, vv in f.items()} for f in h["flows"]], "order": h["order"]})
+            rep.sample({"class": "history", "flows": [{kk: (vv if kk != "steps" else [(s["b1"], s["b2"], len(s["payload"]), s["gap"], {k: s[k] for k in ("delay", "rlen", "hold", "settle") if s.get(k) is not None}) for s in vv]) for kk, vv in f.items()} for f in h["flows"]], "order": h["order"]})
